@@ -122,7 +122,9 @@ def check_case(ctx, case, c, mr):
                         d = oracles.phase_dist(got, want)
                     else:
                         d = float(np.abs(got - want).max())
-                    tol = 1e-9 + sum(6e-8 * max(1.0, abs(float(p))) for p in ps if sig[-1] == "f")
+                    # a merged gate keeps the name of a lone gate when the other factor is an identity within the
+                    # library's tolerance (|angle| < ATOL): name and fields may differ by up to ATOL/2
+                    tol = 1e-7 + sum(6e-8 * max(1.0, abs(float(p))) for p in ps if sig[-1] == "f")
                     ok = d <= tol
                 except Exception:  # noqa: BLE001
                     ok = False
